@@ -19,6 +19,7 @@ struct E3 : Engine {
 		J p = J::obj(); p["engine"] = "E3"; p["prop"] = prop;
 		int nthreads = 2 + r.below(thorough ? 7 : 4); int nkeys = 1 + r.below(3); int ntrig = r.below(3); p["coll"] = (int)r.below(2); if(p.geti("coll")) nkeys = 2 + r.below(4);   // coll: the keys collide in the cache's hash table
 		static const int limits[] = {0,0,0,1,2,4}; p["limit"] = limits[r.below(6)];
+		p["backend"] = r.below(4) == 0 ? "process" : "thread"; if(p.gets("backend") == "process" && r.below(2)) p["pbig"] = 1;   // pbig: values of 20..120 KB in the 512 KiB segment - the allocator splits and merges its largest blocks, entries are evicted under memory pressure   // process: the shared-memory cache (its own allocator, process-shared locks) used by the threads of one process
 		p["sched_seed"] = (unsigned long long)(r.next() >> 8); p["strategy"] = (int)r.below(3); p["pct_depth"] = 1 + (int)r.below(3); p["pct_len"] = 20 + (int)r.below(400);
 		int budget = 24 + (thorough ? 8 : 0);   // total ops across threads stays tractable for the linearizability search
 		// an optional sequential prefix populates the cache (not part of the concurrent history but part of the model's start state)
@@ -58,7 +59,7 @@ struct E3 : Engine {
 		int opseq = 0;
 		auto decode = [&](const J &o,int thread){ Op op; op.thread = thread; op.kind = o.gets("op"); op.how = (int)o.geti("how");
 			if(op.kind == "rise") op.key = trig_name((int)o.geti("t")); else op.key = key_name((int)o.geti("k"));
-			if(op.kind == "store"){ const J &tr = o.get("trig"); for(size_t j=0;j<tr.size();j++) op.trig.insert(trig_name((int)tr.a[j].as_int())); op.deadline = now + o.geti("dl"); op.val = "v" + std::to_string(thread) + "." + std::to_string(opseq); }
+			if(op.kind == "store"){ const J &tr = o.get("trig"); for(size_t j=0;j<tr.size();j++) op.trig.insert(trig_name((int)tr.a[j].as_int())); op.deadline = now + o.geti("dl"); op.val = "v" + std::to_string(thread) + "." + std::to_string(opseq); if(plan.gets("backend") == "process"){ if(plan.geti("pbig")) op.val += std::string(20000 + (size_t)(opseq * 7919 % 100000),(char)('a' + opseq % 26)); else if(opseq & 1) op.val += std::string(20 + opseq % 50,'.'); } }   // beyond the small-string size: the value is copied into the shared segment before the cache lock is taken
 			opseq++; return op; };
 		auto exec = [&](base_cache &c,Op &op){
 			op.inv = ++clock;
@@ -72,12 +73,20 @@ struct E3 : Engine {
 			else if(op.kind == "stats") c.stats(op.rkeys,op.rtrigs);
 			op.ret = ++clock;
 		};
-		size_t nthreads = 0; uint64_t overlap = 0;
+		size_t nthreads = 0; uint64_t overlap = 0; std::map<std::string,std::set<std::string>> pre_vals;
 		{
-			booster::intrusive_ptr<base_cache> cache = cppcms::impl::thread_cache_factory(limit);
+			// the shared-memory cache lives in a process-wide segment that is never released: one object per limit value and worker process, cleared before each run
+			// (512 KiB: with values of a few bytes memory pressure - whose outcomes are not predictable from outside - never comes into play and the history is checked for
+			// linearizability; "pbig" runs use large values: there the race detector, the sanitizers, completion and "a fetch returns a value stored under that key" decide)
+			bool process = plan.gets("backend") == "process"; if(process) res.counters["process_shared_runs"] = 1;
+			static std::map<unsigned,booster::intrusive_ptr<base_cache>> pcaches;
+			booster::intrusive_ptr<base_cache> cache;
+			if(process){ auto it = pcaches.find(limit); if(it == pcaches.end()){ simk::TsanIgnore ign; it = pcaches.insert(std::make_pair(limit,cppcms::impl::process_cache_factory(512u << 10,limit))).first; } for(auto &kv:pcaches) kv.second->clear();   /* all of them share the one segment */ cache = it->second; }
+			else cache = cppcms::impl::thread_cache_factory(limit);
 			// sequential prefix, mirrored into the model's start state
 			const J &pre = plan.get("pre");
 			for(size_t i=0;i<pre.size();i++){ Op op = decode(pre.a[i],-1); exec(*cache,op);
+				if(op.kind == "store") pre_vals[op.key].insert(op.val);
 				if(op.kind == "store") start.store(op.key,op.val,op.trig,op.deadline,now); else if(op.kind == "rise") start.rise(op.key); else if(op.kind == "remove") start.remove(op.key);
 				else if(op.kind == "fetch"){ const CacheEntry *e; bool h = start.fetch(op.key,now,&e); if(h != op.hit || (h && (op.how&3)!=3 && e->val != op.rval)) res.fail("sequential-mismatch","prefix op " + op.str() + " disagrees with the model"); } }
 			const J &th = plan.get("threads"); nthreads = std::min<size_t>(th.size(),16);
@@ -99,7 +108,10 @@ struct E3 : Engine {
 		if(hist.size() > 40) hist.resize(40);
 		for(size_t i=0;i<hist.size();i++) for(size_t j=i+1;j<hist.size();j++) if(hist[i].thread != hist[j].thread && hist[i].inv < hist[j].ret && hist[j].inv < hist[i].ret && hist[i].key == hist[j].key) overlap++;
 		res.counters["overlapping_same_key_pairs"] = (long long)overlap;
-		if(res.ok){
+		if(res.ok && plan.geti("pbig")){ res.counters["process_shared_big_value_runs"] = 1;
+			std::map<std::string,std::set<std::string>> stored; { const J &pre = plan.get("pre"); (void)pre; } for(auto &o:hist) if(o.kind == "store") stored[o.key].insert(o.val);
+			for(auto &o:hist) if(o.kind == "fetch" && o.hit && (o.how & 3) != 3 && !stored[o.key].count(o.rval) && !pre_vals[o.key].count(o.rval)){ res.fail("foreign-or-torn-value","fetch(" + o.key + ") returned " + std::to_string(o.rval.size()) + " bytes that no store put under that key (process-shared cache under memory pressure)"); break; } }
+		else if(res.ok){
 			Lin lin(hist,now,2000000);
 			bool ok = lin.search(0,start);
 			res.counters["lin_states"] = (long long)lin.states;
